@@ -401,7 +401,12 @@ fn steps(s: &Sem, dlon: f64, lat: f64) -> (f64, f64) {
 
 #[derive(Clone, Copy, Debug)]
 struct Jac {
+    /// longitude as central meridian + difference (may leave [-180, 180] degrees)
     lon: f64,
+    /// the longitude handed to the library: `lon` brought into [-180, 180] degrees
+    lon_in: f64,
+    /// some points of the longitude stencil lie on the other side of +-180 degrees and were wrapped
+    wrapped: bool,
     lat: f64,
     x: f64,
     y: f64,
@@ -485,15 +490,30 @@ impl Inst {
 
     /// Jacobians at absolute points (lon, lat, hl, hp), all quantised already.
     fn jacobians(&self, pts: &[(f64, f64, f64, f64)]) -> Result<Vec<Jac>, Failure> {
+        // Longitudes are handed over the way a user gives them: inside [-180, 180] degrees, so that a
+        // domain around a central meridian near the antimeridian straddles +-180. The points of the
+        // longitude stencil are wrapped one by one as well, except for merc and webmerc, which are linear
+        // in the raw longitude (a wrapped neighbour lies a full turn of the cylinder away: the stencil
+        // then continues across the seam of the input instead).
+        let wrap_stencil = !matches!(self.sem.kind, Kind::Merc | Kind::Webmerc);
         let mut data: Vec<Coor4D> = Vec::with_capacity(pts.len() * 13);
+        let mut inputs: Vec<(f64, bool)> = Vec::with_capacity(pts.len());
         for &(lon, lat, hl, hp) in pts {
-            data.push(Coor4D::raw(lon, lat, 0.0, 0.0));
+            let lon_in = if lon.abs() > PI { quant(vcore::refmath::wrap_pi(lon)) } else { lon };
+            let mut wrapped = false;
+            data.push(Coor4D::raw(lon_in, lat, 0.0, 0.0));
             for k in [-3.0, -2.0, -1.0, 1.0, 2.0, 3.0] {
-                data.push(Coor4D::raw(lon + k * hl, lat, 0.0, 0.0));
+                let mut p = lon_in + k * hl;
+                if wrap_stencil && p.abs() > PI {
+                    p = vcore::refmath::wrap_pi(p);
+                    wrapped = true;
+                }
+                data.push(Coor4D::raw(p, lat, 0.0, 0.0));
             }
             for k in [-3.0, -2.0, -1.0, 1.0, 2.0, 3.0] {
-                data.push(Coor4D::raw(lon, lat + k * hp, 0.0, 0.0));
+                data.push(Coor4D::raw(lon_in, lat + k * hp, 0.0, 0.0));
             }
+            inputs.push((lon_in, wrapped));
         }
         self.fwd(&mut data, "finite-difference stencil")?;
         let mut out = Vec::with_capacity(pts.len());
@@ -519,6 +539,8 @@ impl Inst {
             };
             out.push(Jac {
                 lon,
+                lon_in: inputs[i].0,
+                wrapped: inputs[i].1,
                 lat,
                 x: s[0][0],
                 y: s[0][1],
@@ -562,7 +584,8 @@ fn factors(j: &Jac, el: &El, extra_f: f64) -> Fac {
         s: det / (m * nc),
         cos_t: (j.xl * j.xp + j.yl * j.yp) / (dl * dp),
         det,
-        dk: CR * EPS * f / (j.hl * nc),
+        // a wrapped stencil point is displaced by the rounding of 2·pi (some 1e-15 rad)
+        dk: CR * EPS * f / (j.hl * nc) + if j.wrapped { dl / nc * 8.0 * EPS * PI / j.hl } else { 0.0 },
         dh: CR * EPS * f / (j.hp * m),
     }
 }
@@ -800,7 +823,7 @@ fn run_def(def: &Def, case: &Case, rec: &mut Rec, record: bool) -> CaseResult {
         }
         let xf = internal_magnitude(&s, &el, lcc_n, j);
         let fc = factors(j, &el, xf);
-        let at = format!("(lon {:.9}, lat {:.9}) deg [{:+.6} deg from the central meridian]", j.lon.to_degrees(), j.lat.to_degrees(), dlon.to_degrees());
+        let at = format!("(lon {:.9}, lat {:.9}) deg [{:+.6} deg from the central meridian]", j.lon_in.to_degrees(), j.lat.to_degrees(), dlon.to_degrees());
         vensure!(
             fc.h.is_finite() && fc.k.is_finite(),
             format!("degenerate-jacobian@{kop}"),
@@ -906,9 +929,9 @@ fn run_def(def: &Def, case: &Case, rec: &mut Rec, record: bool) -> CaseResult {
             vensure!(fc.det > 0.0, format!("orientation@{aspect}"), "'{text}' at {at}: orientation reversed, determinant {:.6e}", fc.det);
         }
         if kind == Kind::Webmerc {
-            let xr = el.a * j.lon;
+            let xr = el.a * j.lon_in;
             let yr = el.a * j.lat.tan().asinh();
-            let tol = 1e-8 * (el.a / 6_378_137.0) + 8.0 * EPS * el.a * (2.0 / j.lat.cos() + yr.abs() / el.a + j.lon.abs());
+            let tol = 1e-8 * (el.a / 6_378_137.0) + 8.0 * EPS * el.a * (2.0 / j.lat.cos() + yr.abs() / el.a + j.lon_in.abs());
             let e = (j.x - xr).abs().max((j.y - yr).abs());
             if record {
                 rec.metric("webmerc_closed_form_err_m", e);
@@ -929,6 +952,12 @@ fn run_def(def: &Def, case: &Case, rec: &mut Rec, record: bool) -> CaseResult {
         }
         if record {
             rec.class(&aspect);
+            if j.lon_in != j.lon {
+                rec.class(&format!("across-antimeridian@{op}"));
+            }
+            if j.wrapped {
+                rec.class(&format!("stencil-straddles-antimeridian@{op}"));
+            }
             if kind == Kind::Omerc && s.aspect.contains("-alpha") && !s.aspect.contains("obtuse") {
                 rec.class(&format!("{aspect}/{}", if s.lat_c.unwrap_or(0.0) < 0.0 { "latc<0" } else { "latc>=0" }));
             }
@@ -1082,7 +1111,7 @@ fn libjac(inst: &Inst, s: &Sem, j: &Jac, rec: &mut Rec, record: bool) -> CaseRes
         }
     }
     let text = &inst.text;
-    let at = Coor2D::raw(j.lon, j.lat);
+    let at = Coor2D::raw(j.lon_in, j.lat);
     let r = guard(|| Jacobian::new(&inst.ctx, inst.op, [1f64.to_degrees(), 1.0], [false, false], inst.ellps, at).map(|jj| (jj.factors(), jj)));
     let (f, jj): (Factors, Jacobian) = match r {
         Err(p) => vfail!(format!("panic-jacobian@{}", p.sig()), "Jacobian::new for '{text}' at {at:?} panics: {} at {}:{}", p.msg, p.file, p.line),
@@ -1099,7 +1128,7 @@ fn libjac(inst: &Inst, s: &Sem, j: &Jac, rec: &mut Rec, record: bool) -> CaseRes
     let conv = -(j.xp.atan2(j.yp)).to_degrees();
     let checks: [(&str, f64, f64, f64); 9] = [
         ("latitude-degrees", jj.latitude, j.lat.to_degrees(), 1e-12 * 90.0),
-        ("longitude-degrees", jj.longitude, j.lon.to_degrees(), 1e-12 * 360.0),
+        ("longitude-degrees", jj.longitude, j.lon_in.to_degrees(), 1e-12 * 360.0),
         ("meridional_scale", f.meridional_scale, fc.h, tol * fc.h),
         ("parallel_scale", f.parallel_scale, fc.k, tol * fc.k),
         ("areal_scale", f.areal_scale, fc.s, 2.0 * tol * fc.s.abs()),
@@ -1292,7 +1321,9 @@ fn merc_def(e: Ell, lon_0: f64, k: Option<f64>, ts: Option<f64>, lat_0: Option<f
 
 fn def_strategy(names: Vec<String>) -> BoxedStrategy<Def> {
     let ell = ell_strategy(names);
-    let lon = || prop_oneof![1 => Just(0.0), 5 => millideg(-180, 180)];
+    // central meridians: anywhere, and a class within a few degrees of the antimeridian (both signs,
+    // and exactly 180 / -180) whose domain straddles +-180 degrees
+    let lon = || prop_oneof![1 => Just(0.0), 5 => millideg(-180, 180), 2 => antimeridian()];
     let kopt = || prop_oneof![Just(None), k0_strategy().prop_map(Some)];
     let tsopt = || prop_oneof![2 => Just(None), 1 => millideg(-85, 85).prop_map(Some)];
     let lat0opt = || prop_oneof![3 => Just(None), 1 => millideg(-60, 60).prop_map(Some)];
@@ -1302,7 +1333,7 @@ fn def_strategy(names: Vec<String>) -> BoxedStrategy<Def> {
         3 => (ell.clone(), any::<bool>(), prop_oneof![1 => Just(0.0), 2 => millideg(-89, 89), 1 => Just(90.0), 1 => Just(-90.0)], lon(), k0_strategy(), false_origin()).prop_map(|(e, bow, lat_0, lon_0, k, xy)| {
             put_xy(put_nd(put_nd(put_nd(Def::new(if bow { "btmerc" } else { "tmerc" }, e), "lat_0", lat_0, 0.0), "lon_0", lon_0, 0.0), "k_0", k, 1.0), xy)
         }),
-        1 => (ell.clone(), 1u8..=60, any::<bool>(), any::<bool>()).prop_map(|(e, z, south, bow)| {
+        2 => (ell.clone(), prop_oneof![3 => 1u8..=60, 1 => Just(1u8), 1 => Just(60u8)], any::<bool>(), any::<bool>()).prop_map(|(e, z, south, bow)| {
             let d = Def::new(if bow { "butm" } else { "utm" }, e).with("zone", z as f64);
             if south { d.flag("south") } else { d }
         }),
@@ -1321,6 +1352,18 @@ fn def_strategy(names: Vec<String>) -> BoxedStrategy<Def> {
             .prop_map(|(e, lat_0, lon_0, k, xy)| put_xy(put_nd(put_nd(put_nd(Def::new("somerc", e), "lat_0", lat_0, 0.0), "lon_0", lon_0, 0.0), "k_0", k, 1.0), xy)),
     ]
     .boxed()
+}
+
+/// central meridians at and near the antimeridian
+fn antimeridian() -> impl Strategy<Value = f64> {
+    prop_oneof![
+        1 => Just(180.0),
+        1 => Just(-180.0),
+        2 => (1i32..=5000).prop_map(|i| 180.0 - i as f64 / 1000.0),
+        2 => (1i32..=5000).prop_map(|i| -180.0 + i as f64 / 1000.0),
+        1 => (1i32..=12).prop_map(|i| 180.0 - i as f64 / 4.0),
+        1 => (1i32..=12).prop_map(|i| -180.0 + i as f64 / 4.0),
+    ]
 }
 
 #[allow(clippy::too_many_arguments)]
@@ -1460,6 +1503,31 @@ fn canonical_aspects(e: &Ell) -> Vec<Def> {
         d("somerc").with("lat_0", -41.0).with("lon_0", 173.0).with("k_0", 0.9996),
         d("somerc").with("lat_0", 75.0).with("lon_0", -40.0).with("k_0", 1.02),
     ];
+    // the antimeridian class: domains that straddle +-180 degrees
+    v.extend([
+        d("merc").with("lon_0", 180.0).with("k_0", 0.9996),
+        d("merc").with("lon_0", -179.5).with("lat_ts", 30.0).with("x_0", 1_000_000.0).with("y_0", 0.0),
+        d("tmerc").with("lon_0", 179.5).with("k_0", 0.9996).with("x_0", 500_000.0),
+        d("tmerc").with("lon_0", -180.0).with("lat_0", -17.0).with("x_0", 2_000_000.0).with("y_0", 4_000_000.0),
+        d("btmerc").with("lon_0", 180.0),
+        d("btmerc").with("lon_0", 178.75).with("k_0", 0.9996).with("x_0", 500_000.0),
+        d("btmerc").with("lon_0", -178.5).with("lat_0", 52.0).with("k_0", 0.9999).with("x_0", 300_000.0).with("y_0", -200_000.0),
+        d("btmerc").with("lon_0", -180.0).with("k_0", 1.0),
+        d("utm").with("zone", 60.0).flag("south"),
+        d("butm").with("zone", 1.0),
+        d("butm").with("zone", 60.0),
+        d("butm").with("zone", 60.0).flag("south"),
+        d("lcc").with("lat_1", 65.0).with("lat_2", 55.0).with("lat_0", 60.0).with("lon_0", 180.0),
+        d("lcc").with("lat_1", -17.0).with("lon_0", -179.0).with("x_0", 2_000_000.0).with("y_0", 4_000_000.0),
+        d("laea").with("lat_0", 65.0).with("lon_0", 180.0),
+        d("laea").with("lat_0", -17.0).with("lon_0", -178.0).with("x_0", 1_000_000.0).with("y_0", 1_000_000.0),
+        d("laea").with("lat_0", 0.0).with("lon_0", -180.0),
+        d("omerc").with("latc", 52.0).with("lonc", 179.9).with("alpha", 35.0).with("gamma_c", 35.0).flag("variant"),
+        d("omerc").with("latc", -17.0).with("lonc", -180.0).with("alpha", 70.0).with("gamma_c", 70.0),
+        d("omerc").with("latc", 60.0).with("lonc", 180.0).with("alpha", 90.0).with("gamma_c", 90.0).with("x_0", 500_000.0).with("y_0", 500_000.0).flag("variant"),
+        d("somerc").with("lat_0", 52.0).with("lon_0", 179.0),
+        d("somerc").with("lat_0", -44.0).with("lon_0", -180.0).with("k_0", 0.9996).with("x_0", 400_000.0).with("y_0", 800_000.0),
+    ]);
     // false origins in proportion to the size of the ellipsoid (factor 1 on the Earth)
     let f = origin_unit(e) / 1000.0;
     if f != 1.0 {
@@ -1506,6 +1574,8 @@ fn selftest() {
     let dd = |g: &dyn Fn(f64) -> f64| (45.0 * (g(1.0) - g(-1.0)) - 9.0 * (g(2.0) - g(-2.0)) + (g(3.0) - g(-3.0))) / (60.0 * h);
     let j = Jac {
         lon,
+        lon_in: lon,
+        wrapped: false,
         lat,
         x: 0.0,
         y: 0.0,
@@ -1529,6 +1599,7 @@ fn main() {
     run.assume("merc: lat_0 is given no meaning by the property (only conformality is required when it is present); origin claim (lon_0, 0) -> (x_0, y_0) only when lat_0 is absent; lat_ts and k_0 are not combined (documented as alternatives)");
     run.assume("omerc: false origin at the projection centre is claimed for variant B and the Laborde form only (variant A places it at the natural origin); lcc: origin claim needs an explicit lat_0 or a single standard parallel");
     run.assume("domains: |lat| <= 89.9; tmerc/utm within 60 deg and btmerc/butm within 3 deg of the central meridian; laea within 170 deg of the centre; omerc/somerc within 45 deg of the centre; no finite-difference stencil across the seam of lcc/somerc (antimeridian of the centre) or within 92 deg of the antimeridian of the omerc centre (seam of the aposphere)");
+    run.assume("longitudes are handed to the library inside [-180, 180] deg (a domain around a central meridian near the antimeridian straddles +-180); the points of the longitude stencil are wrapped one by one as well, except for merc/webmerc, which are linear in the raw longitude and documented without wrapping: there the stencil continues across +-180");
     run.assume("omerc: the meridian through the centre has the grid bearing gamma_c - alpha (u axis tangent to the initial line of azimuth alpha; IOGP 373-7-2); laea: unit scale in all directions at the centre (azimuthal)");
 
     let names = named_ellipsoids();
@@ -1563,7 +1634,7 @@ fn main() {
         let nm = names.clone();
         run.section(
             "random",
-            "random parameter sets of every projection (centre, standard parallels in both hemispheres, k_0, lat_ts, azimuth of every quadrant incl. 90, -90 and 270 exactly with both signs of latc and variants A/B/Laborde, rectified-grid angle, all aspects of laea, false origins) x built-in or random ellipsoid (f in [1e-7, 1/150], a in [1, 7e6]) x up to 12 points of the domain incl. its edges; lines of true scale and origins checked for every case",
+            "random parameter sets of every projection (centre, standard parallels in both hemispheres, k_0, lat_ts, central meridians at and within 5 deg of the antimeridian, azimuth of every quadrant incl. 90, -90 and 270 exactly with both signs of latc and variants A/B/Laborde, rectified-grid angle, all aspects of laea, false origins) x built-in or random ellipsoid (f in [1e-7, 1/150], a in [1, 7e6]) x up to 12 points of the domain incl. its edges; lines of true scale and origins checked for every case",
             n,
             move || case_strategy(nm.clone(), 12, 0.15),
             check,
